@@ -880,7 +880,7 @@ def run_cases(cases, scratch):
 
 
 def run(run):
-    ncases = 1500 if run.thorough else 170
+    ncases = 1200 if run.thorough else 140
     cases = load_corpus()
     run.count("corpus", len(cases))
     while len(cases) < ncases:
